@@ -37,6 +37,7 @@
 
 use crate::constants::MAX_BLACKBOARD_KEY_SIZE;
 use crate::identifiers::UniqueReaderId;
+use crate::node::PortTag;
 use crate::port::port_name::PortName;
 use crate::prelude::EventId;
 use crate::service::dynamic_config::blackboard::ReaderDetails;
@@ -108,7 +109,7 @@ struct ReaderSharedState<
     // the struct.
     // Otherwise the process might crash during cleanup, has already removed the tag but other resources
     // are still existing. This would make a cleanup from another process impossible.
-    port_tag: Service::StaticStorage,
+    port_tag: PortTag<Service>,
 }
 
 unsafe impl<
@@ -126,7 +127,7 @@ impl<
     unsafe fn abandon_in_place(mut this: NonNull<Self>) {
         let this = unsafe { this.as_mut() };
         unsafe { SharedServiceState::abandon_in_place(NonNull::from_mut(&mut this.service_state)) };
-        unsafe { Service::StaticStorage::abandon_in_place(NonNull::from_mut(&mut this.port_tag)) };
+        unsafe { PortTag::<Service>::abandon_in_place(NonNull::from_mut(&mut this.port_tag)) };
     }
 }
 
